@@ -830,7 +830,7 @@ class G:
             sc["id"] = i
             out.append(sc)
         for f in (self.v0_oversized_state, self.corpus_iter, self.v1_too_many_iterators, self.v1_reenter,
-                  lambda: self.v1_too_many_interrupts(8388608)) + (() if n <= 200 else (lambda: self.v1_too_many_interrupts(8388607),)):
+                  lambda: self.v1_too_many_interrupts(8388608)) + (() if n <= 1000 else (lambda: self.v1_too_many_interrupts(8388607),)):
             sc = f()
             sc["id"] = len(out)
             out.append(sc)
@@ -1184,13 +1184,13 @@ def run(ctx):
         ctx.violation({"layer": "harness build against /repo", "error": binp},
                       "harness no longer builds against the implementation", no_input=True)
         return
-    n = 160 if ctx.quick else 900
+    n = 800 if ctx.quick else 25000
     seed = ctx.seed
     rp = None
     if getattr(ctx, "replay", None):
         rp = json.load(open(ctx.replay)).get("replay", {})
         seed = rp.get("seed", seed)
-        n = 160 if rp.get("tier", "quick") == "quick" else 900
+        n = 800 if rp.get("tier", "quick") == "quick" else 25000
     g = G(seed)
     scripts = g.scripts(n)
     if rp is not None and "script_id" in rp:
